@@ -1,0 +1,137 @@
+//go:build verif
+
+/*
+ Licensed to the Apache Software Foundation (ASF) under one
+ or more contributor license agreements.  See the NOTICE file
+ distributed with this work for additional information
+ regarding copyright ownership.  The ASF licenses this file
+ to you under the Apache License, Version 2.0 (the
+ "License"); you may not use this file except in compliance
+ with the License.  You may obtain a copy of the License at
+
+     http://www.apache.org/licenses/LICENSE-2.0
+
+ Unless required by applicable law or agreed to in writing, software
+ distributed under the License is distributed on an "AS IS" BASIS,
+ WITHOUT WARRANTIES OR CONDITIONS OF ANY KIND, either express or implied.
+ See the License for the specific language governing permissions and
+ limitations under the License.
+*/
+
+package objects
+
+import (
+	"time"
+
+	"github.com/apache/yunikorn-core/pkg/common/resources"
+	"github.com/apache/yunikorn-core/pkg/scheduler/policies"
+)
+
+// Export shims for the model-based verification harness (build tag verif).
+
+// VerifFirePlaceholderTimer runs the placeholder timeout synchronously if, and only if, the timer is armed.
+func (sa *Application) VerifFirePlaceholderTimer() bool {
+	sa.RLock()
+	armed := sa.placeholderTimer != nil
+	sa.RUnlock()
+	if !armed {
+		return false
+	}
+	sa.timeoutPlaceholderProcessing()
+	return true
+}
+
+// VerifFireStateTimer runs the state timer for the current state synchronously if, and only if, it is armed.
+func (sa *Application) VerifFireStateTimer() bool {
+	sa.RLock()
+	armed := sa.stateTimer != nil
+	sa.RUnlock()
+	if !armed {
+		return false
+	}
+	st := sa.CurrentState()
+	var ev applicationEvent
+	switch st {
+	case Completing.String():
+		ev = CompleteApplication
+	case Completed.String(), Failed.String(), Rejected.String():
+		ev = ExpireApplication
+	default:
+		return false
+	}
+	sa.timeoutStateTimer(st, ev)()
+	return true
+}
+
+func (sa *Application) VerifTimersArmed() (placeholder bool, state bool) {
+	sa.RLock()
+	defer sa.RUnlock()
+	return sa.placeholderTimer != nil, sa.stateTimer != nil
+}
+
+func VerifSetPreemptAttemptFrequency(d time.Duration) {
+	preemptAttemptFrequency = d
+}
+
+func VerifSetReservationWaitTimeout(d time.Duration) {
+	reservationWaitTimeout = d
+}
+
+func VerifSetTerminatedTimeout(d time.Duration) {
+	terminatedTimeout = d
+}
+
+func (sq *Queue) VerifQuotaPreemptionRunning() bool {
+	return sq.getQuotaPreemptionRunning()
+}
+
+// VerifQuotaPreemptionElapse moves the start time of an armed quota preemption delay into the past.
+func (sq *Queue) VerifQuotaPreemptionElapse() bool {
+	sq.Lock()
+	defer sq.Unlock()
+	if sq.quotaPreemptionStartTime.IsZero() {
+		return false
+	}
+	sq.quotaPreemptionStartTime = time.Now().Add(-time.Second)
+	return true
+}
+
+func (sq *Queue) VerifQuotaPreemptionArmed() bool {
+	sq.RLock()
+	defer sq.RUnlock()
+	return !sq.quotaPreemptionStartTime.IsZero()
+}
+
+func (sq *Queue) VerifSortQueues() []*Queue {
+	return sq.sortQueues()
+}
+
+func (sq *Queue) VerifSortApplications(withPlaceholdersOnly bool) []*Application {
+	return sq.sortApplications(withPlaceholdersOnly)
+}
+
+func VerifSortQueue(queues []*Queue, fairMaxResources []*resources.Resource, sortType policies.SortPolicy, considerPriority bool) {
+	sortQueue(queues, fairMaxResources, sortType, considerPriority)
+}
+
+func VerifSortApplications(apps map[string]*Application, sortType policies.SortPolicy, considerPriority bool, globalResource *resources.Resource) []*Application {
+	return sortApplications(apps, sortType, considerPriority, globalResource)
+}
+
+// VerifSortedAsks inserts the asks in the given order into a fresh sortedRequests and returns the resulting order.
+func VerifSortedAsks(asks []*Allocation) []*Allocation {
+	s := sortedRequests{}
+	for _, a := range asks {
+		s.insert(a)
+	}
+	return s
+}
+
+// VerifSortedRequests returns the application's pending asks in scheduling order.
+func (sa *Application) VerifSortedRequests() []*Allocation {
+	sa.RLock()
+	defer sa.RUnlock()
+	out := make([]*Allocation, len(sa.sortedRequests))
+	copy(out, sa.sortedRequests)
+	return out
+}
